@@ -618,7 +618,9 @@ Definition monitor_fails := monitor_fails_from 0.
    started; the real code serialises them by the cluster lock, so the outcome must be that of one of the two
    sequential orders.  Observed: both results, the final snapshot and, when b completed while a was still parked
    (which the lock forbids for every pair that writes), the snapshot taken at that moment. *)
-Record oobs := OObs { oo_ra : res; oo_rb : res; oo_before : obs; oo_mid : option obs; oo_final : obs }.
+Record oobs := OObs { oo_ra : res; oo_rb : res; oo_before : obs; oo_mid : option obs; oo_final : obs;
+                      oo_reload : option obs   (* after both completed: a new leader loads the same storage (LoadClusterInfo) *) }.
+Definition entry_proj_eqb (a b : Z * view) : bool := (fst a =? fst b) && view_eqb_proj (snd a) (snd b).
 Definition ocase := (ver * payload * list op * op * op * oobs)%type.
 
 Definition snap_eqb (a b : obs) : bool :=
@@ -673,7 +675,14 @@ Definition monitor_o (c : ocase) : list string :=
          then ["C14:bury-decision-uses-region-count-read-outside-lock"] else [])
     | None => []
     end) ++
-   (if addr_unique (o_served (oo_final o)) then [] else ["C14:duplicate-live-address"]))%list.
+   (if addr_unique (o_served (oo_final o)) then [] else ["C14:duplicate-live-address"]) ++
+   (* no storage fault is involved in a pair: what a new leader loads afterwards is what was served *)
+   (match oo_reload o with
+    | Some r =>
+        (if tombstone_back (oo_final o) r then ["C14:tombstone-returned"] else []) ++
+        (if list_eqb entry_proj_eqb (o_served (oo_final o)) (o_served r) then [] else ["C14:reload-serves-a-different-state"])
+    | None => []
+    end))%list.
 Fixpoint monitor_o_fails_from (n : nat) (cs : list ocase) : list (nat * string) :=
   match cs with
   | [] => []
@@ -768,3 +777,46 @@ Definition monitor_m (c : mcase) : list string :=
      then [] else ["C14:failed-op-changed-another-stores-record"]).
 Definition monitor_m_fails (cs : list mcase) : list (nat * string) :=
   flat_map (fun ic : nat * mcase => map (fun sg => (fst ic, sg)) (monitor_m (snd ic))) (number_from 0 cs).
+
+(* ---------- a new leader loads the same storage (LoadClusterInfo -> Storage.LoadStores, paged) ----------
+   Every store record is loaded, with its weight keys (default 1); the region-count statistic and the "meta persisted since load" mark
+   start afresh.  (The class that uses it issues no region heartbeats: the region tree is empty after the load.) *)
+Definition restart (s : state) : state :=
+  State (map (fun e : Z * meta =>
+                (fst e, SStore (m_addr (snd e)) (m_state (snd e)) (m_pd (snd e)) (m_labels (snd e)) (m_ver (snd e))
+                               (match aget (st_lw s) (fst e) with Some w => w | None => 1 end)
+                               (match aget (st_rw s) (fst e) with Some w => w | None => 1 end) 0 false)) (st_meta s))
+        (st_meta s) (st_lw s) (st_rw s) [] (cver s) (cenv s).
+Inductive hop := HOp (o : op) | HRestart | HBulk (ps : list payload).   (* HBulk: that many PutStore calls, observed once at the end *)
+Definition run_hop (s : state) (h : hop) : state * obs :=
+  match h with
+  | HOp o => run_op s o
+  | HRestart => let s' := restart s in (s', snapshot s' ROk)
+  | HBulk ps => let s' := fold_left (fun a p => fst (do_put a p NoFault)) ps s in (s', snapshot s' ROk)
+  end.
+Definition rcase := (ver * payload * list hop * list obs)%type.
+Definition model_robs (c : rcase) : list obs :=
+  let '(cv, p, hs, _) := c in let s0 := boot cv p in snapshot s0 ROk :: run run_hop s0 hs.
+Definition rmismatches (cs : list rcase) : list nat :=
+  map fst (filter (fun ic : nat * rcase => let '(_, _, _, got) := snd ic in
+                     match diff_at obs_eqb 0 (model_robs (snd ic)) got with [] => false | _ => true end) (number_from 0 cs)).
+(* the lifecycle clauses across a leader change: a tombstone never comes back, the new leader serves every stored record as stored
+   (no record lost: Storage.LoadStores pages through ALL of them), live addresses stay unique *)
+Definition mon_reload (prev cur : obs) : list string :=
+  ((if tombstone_back prev cur then ["C14:tombstone-returned"] else []) ++
+   (if list_eqb entry_proj_eqb (o_stored prev) (o_served cur) then [] else ["C14:new-leader-does-not-serve-every-stored-store"]) ++
+   (if addr_unique (o_served cur) then [] else ["C14:duplicate-live-address"]))%list.
+Fixpoint mon_run_r (past : list op) (rg : amap (list Z)) (hs : list hop) (prev : obs) (obs_l : list obs) : list string :=
+  match hs, obs_l with
+  | HOp o :: r, b :: br =>
+      (mon_step past rg o prev b ++ mon_env past o b ++
+       mon_run_r (o :: past) (match o with ORegion g st => aset rg g st | _ => rg end) r b br)%list
+  | HRestart :: r, b :: br => (mon_reload prev b ++ mon_run_r past [] r b br)%list
+  | HBulk _ :: r, b :: br => ((if addr_unique (o_served b) then [] else ["C14:duplicate-live-address"]) ++ mon_run_r past rg r b br)%list
+  | _, _ => []
+  end.
+Definition monitor_r (c : rcase) : list string :=
+  let '(_, _, hs, got) := c in
+  match got with b0 :: br => nodup string_dec (mon_run_r [] [] hs b0 br) | [] => ["C14:empty-trace"] end.
+Definition monitor_r_fails (cs : list rcase) : list (nat * string) :=
+  flat_map (fun ic : nat * rcase => map (fun sg => (fst ic, sg)) (monitor_r (snd ic))) (number_from 0 cs).
